@@ -130,6 +130,21 @@ static void vf_out_str(char *buf, long maxlen, unsigned long long d)
     strcpy(buf, tmp);
 }
 
+/* exact-length variant (C10 level 2): the first min(max(n,0), maxlen) characters of a fixed pattern with
+ * embedded and trailing blanks */
+#define VF_PAT "ab c  de f   gh i jk  lmn o  pq r s t u v w x yz"
+static void vf_out_strn(long n, char *buf, long maxlen, unsigned long long d)
+{
+    long k = n < 0 ? 0 : n;
+    (void) d;
+    if (maxlen >= 0 && k > maxlen)
+        k = maxlen;
+    if (k > (long) sizeof(VF_PAT) - 1)
+        k = (long) sizeof(VF_PAT) - 1;
+    memcpy(buf, VF_PAT, (size_t) k);
+    buf[k] = '\0';
+}
+
 #define VF_ARR_INT(KEY, CT, SIGNED)                                                                       \
     static unsigned long long vf_h_arr_##KEY(const CT *a, long n)                                         \
     {                                                                                                     \
